@@ -239,6 +239,23 @@ func OASStructureCatalogue() []*Request {
 		f.Services = []*Service{Svc("Misc", "/misc", RPC("Do", q(id, "Req"), q(id, "Nothing"), "POST", "/do"))}
 		out = append(out, oasReq(id, f, "misc"))
 	}
+	{ // nullable = true on optional fields whose schema carries an `enum` keyword: makeNullableSchema appends a !!null member
+		// (enum names, enum_value custom strings, enum_encoding NUMBER, string / numeric `in` rules), next to the same
+		// fields without nullable and a nullable field without `enum`
+		id := "oasnullenum"
+		shade := &Enum{Name: "Shade", Values: []*EnumValue{{Name: "SHADE_UNSPECIFIED", Number: 0, EnumValue: Str("none")}, {Name: "SHADE_DARK", Number: 1, EnumValue: Str("dark")}}}
+		f := &File{Enums: []*Enum{E("Color", "COLOR_UNSPECIFIED", "COLOR_RED"), shade}, Messages: []*Message{
+			M("Req", F("color", 1, "", EnumT(q(id, "Color")), Opt(), Nullable(true)), F("shade", 2, "", EnumT(q(id, "Shade")), Opt(), Nullable(true)),
+				F("color_num", 3, "", EnumT(q(id, "Color")), Opt(), Nullable(true), EnumEnc("NUMBER")),
+				F("mode", 4, "string", Opt(), Nullable(true), WithRules(&Rules{StrIn: []string{"fast", "null", "7"}})),
+				F("level", 5, "int32", Opt(), Nullable(true), WithRules(&Rules{NumIn: []string{"1", "2"}})),
+				F("plain_color", 6, "", EnumT(q(id, "Color")), Opt()), F("plain_mode", 7, "string", Opt(), WithRules(&Rules{StrIn: []string{"fast"}})),
+				F("nick", 8, "string", Opt(), Nullable(true)), F("not_null", 9, "", EnumT(q(id, "Color")), Opt(), Nullable(false))),
+			res(),
+		}}
+		f.Services = []*Service{Svc("NulEnum", "/ne", RPC("Do", q(id, "Req"), q(id, "Res"), "POST", "/do"))}
+		out = append(out, oasReq(id, f, "nullable-enum"))
+	}
 	return out
 }
 
